@@ -9,15 +9,98 @@ LEAN_TARGETS = ["EtkVerif.Props.C02"]
 RULE = ("programs over the full mnemonic set (every zero-operand opcode of the regenerated Cancun table, push0, push1..push32 with "
         "operands 0, 1, 256^N-1, 256^(N-1), random, written in random radixes with leading zeros, %push constants), interleaved "
         "labels; every program rendered in a random legal layout (blank lines, leading blanks, trailing and full-line comments, `;` "
-        "separators); every case assembled twice by the harness in fresh assemblers (repeat-run clause). The output is decoded by an "
+        "separators); every case assembled twice by the harness in fresh assemblers (repeat-run clause); 150 (thorough 2000) DECORATED "
+        "instruction programs of the layout theorem's family, given to the model as structure: it renders them with Layout.render, checks "
+        "Layout.WF and that its rendering is byte-for-byte the text the implementation assembled. The output is decoded by an "
         "independent linear sweep and aligned one-to-one with the reference item list. non-trivial = at least 5 instructions")
 EXHAUSTIVE = {"quick": False, "thorough": False}
 ASSUMPTIONS = []
 
 
+# ---- the family of the layout theorem (C02_layout): decorated instruction programs, given to the model as STRUCTURE
+# (it renders with Layout.render, checks Layout.WF and that its rendering is the text the implementation got)
+
+def _hx(b):
+    return b.hex() if b else "-"
+
+
+COMMENT_BODIES = [b"", b" c", b" remember; gas", b";", b"; stop", b";pc;pc", b" a: ; jumpdest", b" %push(1); pc", b' "q" ; %include("x")',
+                  b" # nested # ; gas", b" 0x", b"\t;\tjumpdest", " caf\u00e9 ; \u2603".encode()]
+
+
+def _blanks(rng, p=0.4):
+    return bytes(rng.choice([32, 9]) for _ in range(rng.randrange(1, 4))) if rng.random() < p else b""
+
+
+def _comment(rng, p=0.3):
+    return rng.choice(COMMENT_BODIES) if rng.random() < p else None
+
+
+def _cf(c):
+    return "n" if c is None else "c" + _hx(c)
+
+
+def _ct(c):
+    return b"" if c is None else b"#" + c
+
+
+def _blank_line(rng):
+    b, c, e = _blanks(rng, 0.5), _comment(rng, 0.5), rng.random() < 0.2
+    return f"{_hx(b)}/{_cf(c)}/{int(e)}", b + _ct(c) + (b"\r\n" if e else b"\n")
+
+
+def gen_decorated(rng, big=False):
+    import evmspec as S
+    ops = [b for b in range(256) if S.of_fork("cancun", b) is not None and b not in R.ETK_UNDEFINED]
+    n = rng.choice([0, 1, 2, 3, 5, 8, 20]) if not big else rng.choice([100, 400])
+    head = [_blank_line(rng) for _ in range(rng.choice([0, 0, 1, 2]))]
+    items, text, out = [], b"".join(t for _, t in head), b""
+    for j in range(n):
+        op = rng.choice(ops)
+        k = S.imm_len(op)
+        imm = bytes(rng.choice([0, 0, 255, rng.randrange(256)]) for _ in range(k))
+        stmt = (MN[op] + (" 0x" + imm.hex() if k else "")).encode()
+        lead = _blanks(rng, 0.3)
+        last = j == n - 1
+        r = rng.random()
+        if last and r < 0.3:
+            t, c = _blanks(rng), _comment(rng)
+            term, tt = f"o:{_hx(t)}:{_cf(c)}", t + _ct(c)
+        elif r < 0.55 or (r < 0.7 and last):
+            b, a = _blanks(rng), _blanks(rng)
+            term, tt = f"s:{_hx(b)}:{_hx(a)}", b + b";" + a
+        else:
+            t, c, e = _blanks(rng), _comment(rng), rng.random() < 0.2
+            more = [_blank_line(rng) for _ in range(rng.choice([0, 0, 0, 1, 2]))]
+            term = f"l:{_hx(t)}:{_cf(c)}:{int(e)}:{';'.join(m for m, _ in more) if more else '='}"
+            tt = t + _ct(c) + (b"\r\n" if e else b"\n") + b"".join(x for _, x in more)
+        items.append(f"{_hx(lead)}|{op}.{_hx(imm)}|{term}")
+        text += lead + stmt + tt
+        out += bytes([op]) + imm
+    hs = ",".join(h for h, _ in head) if head else "="
+    its = ",".join(items) if items else "="
+    return {"line": "asm " + _hx(text), "model_line": f"lay {hs} {its} {_hx(text)}", "tags": ["decorated"], "src": text.decode("utf-8", "replace"),
+            "want_ok": out.hex() if out else "-"}
+
+
+MN = {}
+
+
+def prepare(cases):
+    if not MN:
+        # mnemonics as the real crate prints them (the regenerated table)
+        out = C.run([C.CORE_EXE, "dump-ops"]).stdout
+        for l in out.splitlines():
+            f = l.split(" ")
+            if f[0] == "cancun":
+                MN[int(f[1])] = f[2]
+
+
 def cases(rng, tier):
     n = 300 if tier == "quick" else 5000
     cs = family_cases(rng, [("ops", G.gen_ops), ("macros", G.gen_macros)], n // 2, faults=0.0)
+    prepare([])
+    cs += [gen_decorated(rng, big=(tier == "thorough" and i % 50 == 0)) for i in range(150 if tier == "quick" else 2000)]
     return cs
 
 
@@ -37,11 +120,16 @@ def nontrivial(case, reply):
 MANIFEST = {
     "text": "Proof: a successful emission is the concatenation, in item order, of each item's encoding (labels and, upstream, definitions "
             "contribute nothing; nothing reordered, dropped or duplicated); pushN contributes its opcode byte and exactly N big-endian "
-            "bytes of the in-range value, left-padded with zeros; bytesBE is value-preserving and minimal. PARTIAL: independence from the "
-            "random label suffixes and insensitivity to layout (blank lines, comments, separators — a statement about the pest grammar) "
-            "are exercised by the correspondence (double run, random legal layouts), not proved.",
+            "bytes of the in-range value, left-padded with zeros; bytesBE is value-preserving and minimal; repeated runs give the same bytes: "
+            "the output is independent of the source of the random label suffixes as long as it is fresh for the program "
+            "(C02_suffix_independent; any injective source is fresh for programs without underscores in label names, "
+            "C02_fresh_satisfiable); LAYOUT (C02_layout, C02_layout_bytes): for programs over the full mnemonic set and every push width "
+            "with hex operands, any legal decoration — blanks, `#` comments with any body (also `;`, `%`, `:`, quotes, statements), blank "
+            "and comment-only lines, LF/CRLF, `;` separators, an unterminated last statement — parses (full pest interpreter over the "
+            "regenerated grammar) to the same nodes and assembles to exactly the concatenation of the instructions' bytes. Layouts of "
+            "programs with labels, macros and directives are exercised by the correspondence (random legal layouts), not proved.",
     "note": "Trusted: Lean kernel; Asm/Assemble.lean tied by the differential run over the whole mnemonic set and all push widths; the "
             "mnemonic -> opcode mapping is the regenerated table (C17) and grammar (C03 table theorems); parsing is the generic pest "
             "interpreter over the regenerated grammar, tied by the same run.",
-    "technique": "Lean 4 proof (emission = concatenation of encodings) + differential correspondence over all mnemonics/layouts + independent decoder",
+    "technique": "Lean 4 proof (emission = concatenation of encodings; suffix independence by a partial bijection on label names; layout insensitivity over the pest interpreter model) + differential correspondence over all mnemonics/layouts + independent decoder",
 }
